@@ -208,6 +208,7 @@ def jobs(tier):
     # (lead) the C fast-path separable-convolution fetcher against the documented tap window (one-hot kernels)
     for cw, ch in (((1, 3), (2, 3)) if tier == "quick" else ((1, 3), (2, 3), (2, 2), (3, 1))):   # 1x3: window offset per axis (seed C08-1); 2x3: even width, the lost epsilon (seed C02-3)
         js.append(Job("fastpath.sepconv.window.%dx%d" % (cw, ch), "C08/fp_sepconv.c", defines={"VC_CW": cw, "VC_CH": ch}, unwind=8,
+                      extra_sources=["harness/C19/replay_link.c"],   # weak aborting bodies so that the native replay links
                       cbmc_flags=["--no-undefined-shift-check"], kind="bounded",
                       bound="kernel %dx%d, 0 subsample bits, one-hot weights; 4x4 source; scanline width 1" % (cw, ch),
                       functions=["bits_image_fetch_separable_convolution_affine"],
